@@ -4,7 +4,7 @@
 (*   Enum   : the case space (operator x operand pair x target form), printed    *)
 (*   Laws   : properties of the reference (JsOps / Dbl / JsConv) itself           *)
 (*   Judge  : records observed on the real engine, judged against JsOps          *)
-EXTENDS JsOpsAsIs, JsLit, Json, IOUtils
+EXTENDS JsOpsAsIs, JsLit, Json, IOUtils, TLCExt
 
 S(txt) == VStr(U(txt))
 N(txt) == ToNumberV(S(txt))
@@ -83,8 +83,10 @@ UniAll ==
   \o UStr("ws-both-trail", [ui_k \in 1..Len(UEsWsSeq) |-> <<49, UEsWsSeq[Len(UEsWsSeq) + 1 - ui_k]>>])
   \o UStr("ws-none", << <<8203, 49>>, <<49, 6158>>, <<8288, 49>>, <<49, 0>>, <<8204, 49>>, <<49, 65534>> >>)
   \o UStr("ws-inner", << <<45, 32, 49>>, <<49, 12288, 101, 51>>, <<48, 32, 120, 49>>, <<43, 160, 49>>, <<49, 46, 32, 53>> >>)
-  \o UStr("long", << URep(48, 4400) \o <<55>>, URep(32, 4400) \o <<49>> \o URep(10, 300), <<48, 46>> \o URep(48, 4400) \o <<49>>,
-                     <<49>> \o URep(48, 400), <<48, 120>> \o URep(48, 4400) \o <<102>>, <<45>> \o URep(48, 4400) >>)
+  \* long operands: a white space run beyond the host's 4300-digit conversion limit, digit runs of 400 (Str!Trim is
+  \* quadratic in the trimmed length, so digit runs beyond the host limit are not affordable here)
+  \o UStr("long", << URep(32, 4400) \o <<49>> \o URep(10, 300), URep(48, 400) \o <<55>>, <<49>> \o URep(48, 400),
+                     <<48, 46>> \o URep(48, 400) \o <<49>>, <<48, 120>> \o URep(48, 400) \o <<102>>, <<45>> \o URep(48, 400) >>)
 NUni == Len(UniAll)
 UniClasses == {UniAll[ui_k].cls : ui_k \in 1..NUni}
 URank(k) == Cardinality({ui_j \in 1..k : UniAll[ui_j].cls = UniAll[k].cls})
@@ -238,7 +240,7 @@ LawsHold == CASE ph = "start" -> /\ \A gi \in GridIdx \cup UniIdx : AllSeq[gi].k
 Recs == ndJsonDeserialize(IOEnv.OBS_FILE)     \* [id, f, op, tgt, pre, a, b, c, la, lb, lc, intrep, tree, out]
 \* operands written as source text (la / lb / lc, tree leaves' lt; <<>> = handed over as a host value): the judge reads the
 \* literal itself; the value the enumeration attached to it must be what the text denotes
-LitOK(txt, v) == txt = <<>> \/ LitValue(txt) = v
+LitOK(txt, v) == txt = <<>> \/ TLCCache(LitValue(txt), txt) = v        \* memoised per text (decimal -> binary is the costly part)
 RECURSIVE TreeLitsOK(_)
 TreeLitsOK(tr) == CASE tr.t = "lit" -> LitOK(tr.lt, tr.v)
                     [] tr.t = "un" -> TreeLitsOK(tr.x)
